@@ -37,4 +37,17 @@ def parseFields (s : List Char) : List (List Char) := (splitOn ',' s).map stripP
 /-- a field the format can represent: no comma, nothing for `strip()` to remove -/
 def cleanField (f : List Char) : Bool := !f.contains ',' && (stripPy f == f)
 
+/-- `s.replace(p, "")` for a non-empty pattern: remove every (leftmost, non-overlapping) occurrence -/
+def removeAll (p : List Char) : List Char → List Char
+  | [] => []
+  | c :: cs =>
+    if p ≠ [] ∧ p.isPrefixOf (c :: cs) then removeAll p ((c :: cs).drop p.length)
+    else c :: removeAll p cs
+termination_by s => s.length
+decreasing_by
+  all_goals simp_wf
+  · rename_i h
+    have : 0 < p.length := List.length_pos_iff.mpr h.1
+    omega
+
 end CF.Txt
